@@ -43,6 +43,18 @@ def w8_w9(prog, ctx):
             ctx.obs.append(ob)
     except Inconclusive as e:
         ctx.inconclusive("W8", "entries are created at the end", "", str(e))
+    # ... and under the section name the reader would give them: NULL and "" mean group-less in creation as in lookup (= C11.A3),
+    # otherwise a section named "" is written as `[]`, which does not read back
+    sub3 = _Ctx(ctx.prop, ctx.tier, prog)
+    try:
+        g3, s3, d3 = _C11.accessors(prog)
+        _C11.a3(prog, sub3, g3, s3)
+        for ob in sub3.obs:
+            if "NULL/empty section" in ob.instance or "marker" in ob.instance:
+                ob.rule = "W8"
+                ctx.obs.append(ob)
+    except Inconclusive as e:
+        ctx.inconclusive("W8", "created entries get the section name the reader would give them", "", str(e))
     cp = prog.fn("cpy_file_entry")
     ctx.touch(cp)
     qs = [(rhs, st) for lhs, rhs, st, kind in query.stores(cp) if render(lhs).endswith(".quotes") and rhs is not None]
@@ -76,8 +88,33 @@ def w8_w9(prog, ctx):
         ctx.ok("W9", "a value and its quotes flag travel together", qs[0][1].where, "%d value replacements after a copy, each with its flag" % n)
 
 
+def w11_queries_leave_the_text(prog, ctx):
+    """W11: what is written is what was read or set: the getters - the extended one works on the stored text of the value - do not
+    edit it in between (= C10.Q1 for the getters; a trim() on the stored string cuts trailing blanks inside quotes for good)."""
+    from sa.report import Ctx as _Ctx
+    from rules import C10 as _C10
+    sub = _Ctx(ctx.prop, ctx.tier, prog)
+    try:
+        _C10.run(prog, sub)
+    except Inconclusive as e:
+        ctx.inconclusive("W11", "getters do not edit the stored text", "", str(e))
+        return
+    n_ok = 0
+    for ob in sub.obs:
+        if ob.rule != "Q1" or "econf_get" not in ob.instance:
+            continue
+        if ob.outcome == "PASS":
+            n_ok += 1
+            continue
+        ob.rule = "W11"
+        ctx.obs.append(ob)
+    if n_ok:
+        ctx.ok("W11", "getters do not edit the stored text", "", "%d (getter, input) pairs with an empty Mod set (= C10.Q1)" % n_ok)
+
+
 def run(prog, ctx):
     w8_w9(prog, ctx)
+    w11_queries_leave_the_text(prog, ctx)
     f = prog.fn(W)
     ctx.touch(f)
     cfg = f.cfg
@@ -366,6 +403,7 @@ def run(prog, ctx):
         else:
             ctx.fail("W3", "a merged object inherits the base's %s tag" % tag, (ms[0] if ms else m).where, "stores %s" % [render(s) for s in ms], key="merge-tag:%s" % tag)
     L = parser.landmarks(prog)
+    parser.delimiter_membership_rule(prog, ctx, "W10", L)
     st_fn = L.store_fn
     qs = [s for lhs, rhs, s, kind in query.stores(st_fn) if render(lhs).endswith(".quotes") and not query.is_slot_init(s)]
     if qs and all(render(s.children[1]) == "quotes" for s in qs):
